@@ -46,7 +46,11 @@ package jpegmeta
 //@   ghostfun sg int int
 //@   ghost f int
 //@   ghost n int
-//@   scenario plain
+//@   scenario plain icc2
+//@   ghost l1 int
+//@   ghost l2 int
+//@   ghost s2 int
+//@   ghost s3 int
 //@   requires [C05] case=plain soi: r.len >= 2 && u8(r, 0) == 0xFF && u8(r, 1) == 0xD8
 //@   requires [C05] case=plain chain-start: sg(0) == 0 && sg(1) == 2 && 1 <= f && f < n && n <= 0x10000000000
 //@   requires [C05] case=plain chain-step: forall k int {sg(k+1)} :: 1 <= k && k < n ==> sg(k+1) == sg(k) + 2 + int(be16(r, sg(k)+2))
@@ -59,10 +63,23 @@ package jpegmeta
 //@   loop 1 invariant [C05] case=plain before-frame: iter + 1 <= f ==> !metadataExtracted
 //@   loop 1 invariant [C05] case=plain after-frame: iter + 1 > f ==> metadataExtracted && md.BitsPerComponent == uint32(u8(r, sg(f)+4)) && md.PixelHeight == uint32(be16(r, sg(f)+5)) && md.PixelWidth == uint32(be16(r, sg(f)+7))
 //@   loop 1 invariant [C05,C06] case=plain untouched: md != nil && md.Format == "JPEG" && md.iccProfileData == nil && md.iccProfileErr == nil && iccProfileChunks == nil && iccProfileChunksExtracted == 0
+//@   requires [C06] case=icc2 soi: r.len >= 2 && u8(r, 0) == 0xFF && u8(r, 1) == 0xD8
+//@   requires [C06] case=icc2 layout: l1 == int(be16(r, 4)) && s2 == 4 + l1 && l2 == int(be16(r, s2+2)) && s3 == s2 + 2 + l2
+//@   requires [C06] case=icc2 first-chunk: r.len >= s2 + 4 && u8(r, 2) == 0xFF && u8(r, 3) == 0xE2 && l1 >= 16 && be32(r, 6) == 0x4943435F && be32(r, 10) == 0x50524F46 && be32(r, 14) == 0x494C4500 && u8(r, 18) == 1 && u8(r, 19) == 2
+//@   requires [C06] case=icc2 second-chunk: r.len >= s3 + 4 && u8(r, s2) == 0xFF && u8(r, s2+1) == 0xE2 && l2 >= 16 && be32(r, s2+4) == 0x4943435F && be32(r, s2+8) == 0x50524F46 && be32(r, s2+12) == 0x494C4500 && u8(r, s2+16) == 2 && u8(r, s2+17) == 2
+//@   requires [C06] case=icc2 frame: u8(r, s3) == 0xFF && u8(r, s3+1) == 0xC0 && be16(r, s3+2) >= 8 && r.len >= s3 + 2 + int(be16(r, s3+2))
+//@   loop 1 invariant [C06] case=icc2 position: 0 <= iter && iter <= 2 && !segReader.inEntropyCodedData && !metadataExtracted && md != nil && md.iccProfileData == nil && md.iccProfileErr == nil && (iter == 0 ==> r.pos == 2 && iccProfileChunks == nil && iccProfileChunksExtracted == 0) && (iter == 1 ==> r.pos == s2) && (iter == 2 ==> r.pos == s3)
+//@   loop 1 invariant [C06] case=icc2 first-collected: iter >= 1 ==> len(iccProfileChunks) == 2 && iccProfileChunksExtracted == iter && iccProfileChunks[0] != nil && len(iccProfileChunks[0]) == l1 - 16 && (forall j int :: 0 <= j && j < l1 - 16 ==> iccProfileChunks[0][j] == u8(r, 20 + j))
+//@   loop 1 invariant [C06] case=icc2 second-pending: iter == 1 ==> iccProfileChunks[1] == nil
+//@   loop 1 invariant [C06] case=icc2 second-collected: iter == 2 ==> iccProfileChunks[1] != nil && len(iccProfileChunks[1]) == l2 - 16 && (forall j int :: 0 <= j && j < l2 - 16 ==> iccProfileChunks[1][j] == u8(r, s2 + 18 + j))
 //@   loop 1 decreases r.len - r.pos
 //@   loop 3 invariant [C06,C09] concatenating: 0 <= rangeindex + 1 && rangeindex < len(iccProfileChunks) && (rangeindex == -1 ==> neverwritten(iccProfileData))
+//@   loop 3 invariant [C06] case=icc2 concatenated: -1 <= rangeindex && rangeindex <= 1 && (rangeindex == -1 ==> buf_len(iccProfileData) == 0) && (rangeindex == 0 ==> buf_len(iccProfileData) == l1 - 16 && (forall j int :: 0 <= j && j < l1 - 16 ==> buf_at(iccProfileData, j) == u8(r, 20 + j)))
+//@   loop 3 invariant [C06] case=icc2 concatenated-both: rangeindex == 1 ==> buf_len(iccProfileData) == l1 + l2 - 32 && (forall j int :: 0 <= j && j < l1 - 16 ==> buf_at(iccProfileData, j) == u8(r, 20 + j)) && (forall j int :: 0 <= j && j < l2 - 16 ==> buf_at(iccProfileData, l1 - 16 + j) == u8(r, s2 + 18 + j))
 //@   loop 3 decreases len(iccProfileChunks) - rangeindex
 //@   ensures [C05,C08] case=plain jpeg-dimensions: err == nil && md != nil && md.BitsPerComponent == uint32(u8(r, sg(f)+4)) && md.PixelHeight == uint32(be16(r, sg(f)+5)) && md.PixelWidth == uint32(be16(r, sg(f)+7)) && md.Format == "JPEG"
 //@   ensures [C06] case=plain no-profile: md != nil && md.iccProfileData == nil && md.iccProfileErr == nil
 //@   ensures [C18] case=plain stops-at-scan: r.pos == sg(n) + 2 + int(be16(r, sg(n)+2))
+//@   ensures [C06] case=icc2 profile-is-chunks-in-order: err == nil && md != nil && md.iccProfileErr == nil && len(md.iccProfileData) == l1 + l2 - 32 && (forall j int :: 0 <= j && j < l1 - 16 ==> md.iccProfileData[j] == u8(r, 20 + j)) && (forall j int :: 0 <= j && j < l2 - 16 ==> md.iccProfileData[l1 - 16 + j] == u8(r, s2 + 18 + j))
+//@   ensures [C05] case=icc2 dimensions-with-profile: err == nil && md != nil && md.PixelHeight == uint32(be16(r, s3+5)) && md.PixelWidth == uint32(be16(r, s3+7))
 //@   ensures [C07,C09] returns: true
